@@ -69,6 +69,20 @@ def check_case(rule_name, attrs):
         extra = sorted((got - exp).elements())
         kind = "missing-" + missing[0][0] if missing else "extra-" + extra[0][0]
         raise Violation("collecting-" + kind, f"expected {sorted(exp.items())} got {sorted(got.items())}", case)
+    # the same node as an inner node of a valid host tree, validated with validate.tree from the host's root
+    inner = build.inner_outcome(lambda: build.make_node(rule_name, attrs=attrs))
+    if inner is not None:
+        ff, cc = inner
+        icase = dict(case, inner=True)
+        if ff[0] == "EXC" or cc[0] == "EXC":
+            raise Violation("inner-node:foreign-exception", f"validate.tree from an ancestor: {ff if ff[0] == 'EXC' else cc}", icase)
+        if (ff[0] == "ok") != (not exp):
+            raise Violation("inner-node:failfast-" + ("accepts-invalid" if ff[0] == "ok" else "rejects-valid"),
+                            f"validate.tree from an ancestor: {ff[0]} but violated constraints = {sorted(exp)}", icase)
+        got = collections.Counter((e[0].name, e[3]) for e in (cc[1] or []) if len(e) >= 4 and e[0].name.startswith("ATTRIBUTE"))
+        if got != exp:
+            raise Violation("inner-node:collecting-differs", f"validate.tree from an ancestor reports {sorted(got.items())} for the node, "
+                            f"expected {sorted(exp.items())}", icase)
 
 
 def check_introspection(rule_name):
